@@ -137,6 +137,24 @@ check("C15",
       "TLA+ spec (ScaledBV.tla + SeqOps.tla) model-checked by TLC + TLC validation of every step of recorded histories on the real classes",
       "DESIGN.md C15")
 
+check("C16",
+      "TLC model-checks the file as a map location->field->dataset under all write histories (<=3 writes, 2 locations, "
+      "every presence subset of the optional fields): 'read back = last object written'; and copy isolation on a cell heap "
+      "(a deep copy equals its source when made; mutating it never changes the source). The as-written write (None fields "
+      "skipped) and a sharing deepcopy must both be rejected by TLC. On the real code: write/read histories on one HDF5 file "
+      "(rich vs poor objects, grouped/ungrouped, non-ASCII labels and group paths, nested groups, str/Path/open handle) for "
+      "18 persistable classes (genotype, phased genotype, three breeding-value, four coancestry, eight variance/covariance, "
+      "two genomic models); copy.copy/copy.deepcopy/.copy()/.deepcopy() followed by in-place mutation of every array of the "
+      "copy; data-frame and CSV round trips with matching options (breeding values, coancestry, two-way variance in "
+      "canonical form, Standard/Extended genetic maps in cM); VCF import of phased diploid calls against the abstract VCF "
+      "content. TLC compares full projections (dtype, shape, values of every public data attribute incl. group metadata) "
+      "and reports the set of differing fields.",
+      "Bit-exact float comparison via repr except breeding-value data-frame round trips (9 significant digits: the values "
+      "are re-standardised); two listed known findings (group cache lost in data-frame round trips; variance matrices "
+      "come back in sorted label order).",
+      "TLA+ spec (Store.tla) model-checked by TLC + TLC validation of recorded write/read/copy/round-trip histories of the real classes",
+      "DESIGN.md C16")
+
 def build():
     checks = []
     for pid in sorted(CHECKS):
